@@ -82,6 +82,10 @@ TABLE = [
     E("Local_Maximum_order", NU, r"^double Interpolation::Local_Maximum\(double x_1, double x_2\)", None, [("x_1", Q), ("x_2", Q)], {"x_1": ("x_1", Q), "x_2": ("x_2", Q)}),
     E("Gauss_Legendre_sizes", IN, r"^double Integrate_Gauss_Legendre\(std::vector<double> function_values", 0, [("f_size", N), ("rw_size", N)],
       {"function_values.size()": ("f_size", N), "roots_and_weights.size()": ("rw_size", N)}),
+    E("Gauss_Legendre_row", IN, r"^double Integrate_Gauss_Legendre\(std::vector<double> function_values", 0, [("row_size", N)],
+      {"roots_and_weights[i].size()": ("row_size", N)}, pick="roots_and_weights[i].size()"),
+    E("Gauss_Legendre_func_row", IN, r"^double Integrate_Gauss_Legendre\(std::function<double\(double\)> func, std::vector<std::vector<double>> roots_and_weights\)", 0, [("row_size", N)],
+      {"roots_and_weights[i].size()": ("row_size", N)}, pick="roots_and_weights[i].size()"),
     E("Factorial", SF, r"^double Factorial\(unsigned int n\)", 0, [("n", N)], {"n": ("n", N)}),
     E("Binomial_Coefficient", SF, r"^double Binomial_Coefficient\(int n, int k\)", 0, [("n", I), ("k", I)], {"n": ("n", I), "k": ("k", I)}),
     E("GammaLn", SF, r"^double GammaLn\(double x\)", 0, [("x", Q)], {"x": ("x", Q)}),
@@ -134,7 +138,7 @@ CONSTANTS = [
     ("gen_Round_digits_max", N, SF, r"unsigned int digits_max\s*=\s*([0-9]+);"),
 ]
 # `Check_For_Error(cond, …)` call sites (k = None): the condition is the first argument of the call
-CALL = r"Check_For_Error\s*\("
+CALL = r"(?:libphysica::)?Check_For_Error\s*\("
 
 
 class ParseError(Exception):
@@ -636,7 +640,7 @@ def previous_defs(path):
     return out
 
 
-def render(entries, consts, prev):
+def render(entries, consts, prev, early=None):
     parts, problems = [HEADER], []
     for name, ty, f, raw, val, err in consts:
         if err:
@@ -656,8 +660,294 @@ def render(entries, consts, prev):
         parts.append("/-- %s, anchor `%s`:  `%s`%s\n    %s -/\ndef %s %s : Bool :=\n  %s\n\n" % (
             f, anchor_text(e["anchor"]), cond, "".join("\n    with  %s" % n for n in (line or [])), "; ".join(CTYPE[t] for t in used), nm,
             " ".join("(%s : %s)" % p for p in e["params"]), body))
+    for name, f, anchor, items, err in (early or []):
+        nm = "gen_%s_early" % name
+        if err:
+            problems.append("%s (early exits): %s" % (name, err))
+            if nm in prev:
+                parts.append(re.sub(r"\s*\Z", "\n\n", prev[nm]))
+            continue
+        parts.append("/-- %s, anchor `%s`: the early exits / early returns of the function body, in source order\n    (`@gen_<Entry>` = the test regenerated above) -/\ndef %s : List String :=\n  [%s]\n\n" % (
+            f, anchor_text(anchor), nm, ", ".join('"%s"' % it.replace("\\", "\\\\").replace('"', '\\"') for it in items)))
     parts.append("end Lp.C10.Gen\n")
     return "".join(parts), problems
+
+
+# ------------------------------------------------------------------------------------------------------------------
+# early exits / early returns of the anchored functions
+# ------------------------------------------------------------------------------------------------------------------
+
+def _blank_strings(s):
+    """string and character literals replaced by spaces of the same length (braces, parentheses and semicolons inside a
+    diagnostic text must not disturb the statement scanner)"""
+    return re.sub(r'"(?:\\.|[^"\\\n])*"|\'(?:\\.|[^\'\\\n])\'', lambda m: m.group(0)[0] + " " * (len(m.group(0)) - 2) + m.group(0)[-1], s)
+
+
+def _match(T, i, o, c):
+    """T[i] == o; index just after the matching c"""
+    depth, j = 0, i
+    while j < len(T):
+        depth += T[j] == o
+        depth -= T[j] == c
+        j += 1
+        if depth == 0:
+            return j
+    raise ParseError("unbalanced `%s`" % o)
+
+
+def _ws(T, i, end):
+    while i < end and T[i].isspace():
+        i += 1
+    return i
+
+
+def _kw(T, i, w):
+    return T.startswith(w, i) and not (T[i + len(w):i + len(w) + 1].isalnum() or T[i + len(w):i + len(w) + 1] == "_") and not (i > 0 and (T[i - 1].isalnum() or T[i - 1] == "_"))
+
+
+def _stmt_end(T, i, end):
+    """index just after the statement that starts at T[i]"""
+    i = _ws(T, i, end)
+    if i >= end:
+        return end
+    if T[i] == "{":
+        return _match(T, i, "{", "}")
+    for w in ("if", "for", "while", "switch"):
+        if _kw(T, i, w):
+            j = _ws(T, i + len(w), end)
+            j = _match(T, j, "(", ")")
+            j = _stmt_end(T, j, end)
+            if w == "if":
+                k = _ws(T, j, end)
+                if _kw(T, k, "else"):
+                    return _stmt_end(T, k + 4, end)
+            return j
+    if _kw(T, i, "do"):
+        j = _stmt_end(T, i + 2, end)
+        return T.index(";", j) + 1
+    if _kw(T, i, "else"):
+        return _stmt_end(T, i + 4, end)
+    depth = 0
+    j = i
+    while j < end:
+        ch = T[j]
+        depth += ch in "({["
+        depth -= ch in ")}]"
+        if ch == ";" and depth == 0:
+            return j + 1
+        j += 1
+    return end
+
+
+EXITS = re.compile(r"\bstd::exit\s*\(|\bexit\s*\(|\breturn\b|\bthrow\b")
+
+
+def _toplevel_exit(T, i, end):
+    """does the statement list T[i:end] call std::exit in a plain statement of its own level (an `else` block that stops)?"""
+    while True:
+        i = _ws(T, i, end)
+        if i >= end:
+            return False
+        j = _stmt_end(T, i, end)
+        if not any(_kw(T, i, w) for w in ("if", "for", "while", "switch", "do")) and T[i] != "{" and re.search(r"\b(?:std::)?exit\s*\(", T[i:j]):
+            return True
+        i = j
+
+
+def _scan_early(T, i, end, out):
+    """the `if`s (position, condition start, condition end) of the statement list T[i:end] whose controlled statement leaves
+    the function (exit / return / throw), `else if` chains included; loops, switches and nested blocks are not entered,
+    except the `else { … }` block of an `if` that leaves the function (`if(g){exit} else {B}` is `if(g){exit} B`)"""
+    while True:
+        i = _ws(T, i, end)
+        if i >= end:
+            return
+        if _kw(T, i, "if"):
+            j = _ws(T, i + 2, end)
+            ce = _match(T, j, "(", ")")
+            se = _stmt_end(T, ce, end)
+            leaves = EXITS.search(T, ce, se) is not None
+            if leaves:
+                out.append(("if", i, j + 1, ce - 1))
+            i = _ws(T, se, end)
+            if _kw(T, i, "else"):
+                k = _ws(T, i + 4, end)
+                if _kw(T, k, "if"):
+                    i = k
+                elif leaves and k < end and T[k] == "{":
+                    be = _match(T, k, "{", "}")
+                    if _toplevel_exit(T, k + 1, be - 1):
+                        out.append(("else", i, k, k))
+                    _scan_early(T, k + 1, be - 1, out)
+                    i = be
+                else:
+                    se2 = _stmt_end(T, k, end)
+                    if re.search(r"\b(?:std::)?exit\s*\(", T[k:se2]) and (T[k] != "{" or _toplevel_exit(T, k + 1, se2 - 1)):
+                        out.append(("else", i, k, k))
+                    i = se2
+            continue
+        m = re.compile(CALL).match(T, i)
+        if m:
+            ce = _match(T, m.end() - 1, "(", ")")
+            out.append(("call", i, m.end(), ce - 1))
+            i = _stmt_end(T, i, end)
+            continue
+        i = _stmt_end(T, i, end)
+
+
+def _light_inline(e, helpers, locals_, depth=0):
+    """helper calls / const locals expanded one level, without typing (used for the conditions that are not table guards)"""
+    if not isinstance(e, tuple) or not e:
+        return e
+    k = e[0]
+    if depth == 0 and k == "call" and e[1][0] == "id" and e[1][1] in helpers and len(helpers[e[1][1]][1]) == len(e[2]):
+        rt, params, body = helpers[e[1][1]]
+        try:
+            inner = subst(Parser(tokenize(body)).parse(), {pn: ("paren", a) for (pn, _), a in zip(params, e[2])})
+            return ("paren", _light_inline(inner, helpers, locals_, 1))
+        except ParseError:
+            return e
+    if depth == 0 and k == "id" and e[1] in locals_:
+        try:
+            return ("paren", _light_inline(Parser(tokenize(locals_[e[1]][1])).parse(), helpers, locals_, 1))
+        except ParseError:
+            return e
+    if k in ("id", "num"):
+        return e
+    if k == "mem":
+        return ("mem", _light_inline(e[1], helpers, locals_, depth), e[2])
+    if k == "call":
+        return ("call", e[1], tuple(_light_inline(a, helpers, locals_, depth) for a in e[2]))
+    if k in ("cmp", "bin"):
+        return (k, e[1], _light_inline(e[2], helpers, locals_, depth), _light_inline(e[3], helpers, locals_, depth))
+    if k == "idx":
+        return ("idx", _light_inline(e[1], helpers, locals_, depth), _light_inline(e[2], helpers, locals_, depth))
+    return (k,) + tuple(_light_inline(x, helpers, locals_, depth) for x in e[1:])
+
+
+PREC = {"or": 1, "and": 2, "eq": 3, "rel": 4, "add": 5, "mul": 6, "un": 7, "post": 8}
+FLIP = {"<": ">=", "<=": ">", ">": "<=", ">=": "<", "==": "!=", "!=": "=="}
+
+
+def canon(e):
+    """(text, precedence) of an expression in a canonical spelling: parentheses by precedence only, `>`/`>=` turned into
+    `<`/`<=`, negated comparisons flipped, operands of `== != || && + *` sorted, literals as exact fractions"""
+    k = e[0]
+    par = lambda t, lvl: t[0] if t[1] >= lvl else "(" + t[0] + ")"
+    if k == "paren":
+        return canon(e[1])
+    if k == "num":
+        q = Fraction(e[1])
+        return (str(q.numerator) if q.denominator == 1 else "%d/%d" % (q.numerator, q.denominator)), 8
+    if k == "id":
+        return e[1], 8
+    if k == "mem":
+        return par(canon(e[1]), 8) + "." + e[2], 8
+    if k == "call":
+        return par(canon(e[1]), 8) + "(" + ", ".join(canon(a)[0] for a in e[2]) + ")", 8
+    if k == "idx":
+        return par(canon(e[1]), 8) + "[" + canon(e[2])[0] + "]", 8
+    if k == "neg":
+        return "-" + par(canon(e[1]), 7), 7
+    if k == "not":
+        x = e[1]
+        while x[0] == "paren":
+            x = x[1]
+        if x[0] == "cmp":
+            return canon(("cmp", FLIP[x[1]], x[2], x[3]))
+        if x[0] == "not":
+            return canon(x[1])
+        return "!" + par(canon(x), 7), 7
+    if k == "cmp":
+        op, a, b = e[1], e[2], e[3]
+        if op in (">", ">="):
+            op, a, b = {">": "<", ">=": "<="}[op], b, a
+        lvl = 3 if op in ("==", "!=") else 4
+        ta, tb = par(canon(a), lvl + 1), par(canon(b), lvl + 1)
+        if op in ("==", "!=") and tb < ta:
+            ta, tb = tb, ta
+        return "%s %s %s" % (ta, op, tb), lvl
+    if k in ("or", "and"):
+        items = []
+
+        def flat_(x):
+            while x[0] == "paren":
+                x = x[1]
+            if x[0] == k:
+                flat_(x[1]); flat_(x[2])
+            else:
+                items.append(par(canon(x), PREC[k] + 1))
+        flat_(e)
+        return (" || " if k == "or" else " && ").join(sorted(set(items))), PREC[k]
+    if k == "bin":
+        op = e[1]
+        lvl = 6 if op == "*" else 5
+        ta, tb = par(canon(e[2]), lvl), par(canon(e[3]), lvl + 1)
+        if op in ("+", "*") and tb < ta:
+            ta, tb = tb, ta
+        return "%s %s %s" % (ta, op, tb), lvl
+    raise ParseError("unsupported expression")
+
+
+def early_lists(repo, entries):
+    """for every anchored function (named after its first table entry): the canonical conditions of its early exits and
+    early returns, in source order; the test of a table entry appears as `@gen_<Entry>` (its meaning is pinned by the
+    `gen_<Entry>_eq` theorem, so a re-spelling of it does not change the list)"""
+    out, seen, cache = [], {}, {}
+    for e, cond, f, note, body, err in entries:
+        key = (e["file"], e["anchor"])
+        if key in seen:
+            continue
+        seen[key] = e["name"]
+        p = os.path.join(repo, e["file"])
+        if e["file"] not in cache:
+            raw = _strip_comments(open(p).read()) if os.path.exists(p) else ""
+            cache[e["file"]] = (raw, _blank_strings(raw), find_helpers(raw))
+        raw, T, helpers = cache[e["file"]]
+        try:
+            m = re.search(e["anchor"], raw, re.M)
+            if not m:
+                raise ParseError("anchor not found")
+            b0 = T.index("{", m.end())
+            b1 = _match(T, b0, "{", "}")
+            found = []
+            _scan_early(T, b0 + 1, b1 - 1, found)
+            # positions of the table guards of this function
+            marks = {}
+            for e2, cond2, f2, n2, body2, err2 in entries:
+                if (e2["file"], e2["anchor"]) == key and cond2 is not None:
+                    try:
+                        c2, before = extract_condition(raw, e2)
+                        marks.setdefault(m.end() + len(before), e2["name"])
+                    except ParseError:
+                        pass
+            items = []
+            for kind, pos, cs, ce in found:
+                if pos in marks:
+                    items.append("@gen_" + marks[pos])
+                    continue
+                if kind == "else":
+                    items.append("else")
+                    continue
+                txt = raw[cs:ce]
+                if kind == "call":       # first argument of Check_For_Error
+                    depth = 0
+                    for q, ch in enumerate(txt):
+                        depth += ch in "(["
+                        depth -= ch in ")]"
+                        if ch == "," and depth == 0:
+                            txt = txt[:q]
+                            break
+                txt = re.sub(r"\s+", " ", txt).strip()
+                try:
+                    locs = find_locals(raw[m.end():pos])
+                    items.append(canon(_light_inline(Parser(tokenize(txt)).parse(), helpers, locs))[0])
+                except (ParseError, ValueError, KeyError):
+                    items.append("raw: " + txt)
+            out.append((e["name"], e["file"], e["anchor"], items, None))
+        except (ParseError, ValueError) as x:
+            out.append((e["name"], e["file"], e["anchor"], None, str(x)))
+    return out
 
 
 def write_if_changed(path, text):
@@ -674,7 +964,7 @@ def write_if_changed(path, text):
 
 def regenerate(repo, out):
     entries, consts = translate(repo)
-    text, problems = render(entries, consts, previous_defs(out))
+    text, problems = render(entries, consts, previous_defs(out), early_lists(repo, entries))
     changed = write_if_changed(out, text)
     return dict(entries=len(entries), constants=len(consts), generated_rewritten=changed, problems=problems)
 
